@@ -8,6 +8,7 @@ import (
 	"fmt"
 	"go/ast"
 	"go/parser"
+	"go/printer"
 	"go/token"
 	"os"
 	"path/filepath"
@@ -17,6 +18,8 @@ import (
 )
 
 var fset = token.NewFileSet()
+
+func printerFprint(b *bytes.Buffer, e ast.Expr) { printer.Fprint(b, fset, e) }
 
 func parse(path string) *ast.File {
 	f, err := parser.ParseFile(fset, path, nil, parser.ParseComments)
@@ -230,8 +233,11 @@ type gen struct {
 	ok   bool
 }
 
-func newGen(name string) *gen {
+func newGen(name string, imports ...string) *gen {
 	g := &gen{name: name, ok: true}
+	for _, im := range imports {
+		fmt.Fprintf(&g.buf, "import GohbaseVerif.Gen.%s\n", im)
+	}
 	fmt.Fprintf(&g.buf, "/- GENERATED by tools/extract from /repo's working tree. Do not edit. -/\nnamespace GV.Gen.%s\n\n", name)
 	return g
 }
@@ -280,6 +286,7 @@ func genBackoff(repo, out string) {
 	}
 	fd := findFunc(f, "sleepAndIncreaseBackoff")
 	next, sleep, zero, ctxCase, ctxRet := "b", "0", "b", false, false
+	nCases := 0
 	okNext := false
 	if fd != nil && fd.Body != nil && len(fd.Type.Params.List) == 2 &&
 		len(fd.Type.Params.List[1].Names) == 1 {
@@ -315,6 +322,7 @@ func genBackoff(repo, out string) {
 				g.fail("statements before the wait")
 			}
 			sel := stmts[foundSelect].(*ast.SelectStmt)
+			nCases = len(sel.Body.List)
 			for _, c := range sel.Body.List {
 				cc := c.(*ast.CommClause)
 				var rx ast.Expr
@@ -383,6 +391,7 @@ func genBackoff(repo, out string) {
 	fmt.Fprintf(&g.buf, "def beforeWait (b : Int) : Int := %s\n", zero)
 	fmt.Fprintf(&g.buf, "/-- duration passed to `time.After` -/\ndef sleepFor (b : Int) : Int := %s\n", sleep)
 	fmt.Fprintf(&g.buf, "/-- the growth formula after a completed sleep -/\ndef nextBackoff (b : Int) : Int := %s\n", next)
+	g.def("waitCases", "Nat", strconv.Itoa(nCases))
 	g.def("waitHasCtxCase", "Bool", fmt.Sprint(ctxCase))
 	g.def("ctxCaseReturnsErr", "Bool", fmt.Sprint(ctxRet))
 	g.finish(out)
@@ -658,6 +667,262 @@ func genCell(repo, out string) {
 	g.finish(out)
 }
 
+// ---------------------------------------------------------------- Retry loops (rpc.go)
+
+func exprStr(e ast.Expr) string {
+	var b bytes.Buffer
+	printerFprint(&b, e)
+	return b.String()
+}
+
+// typeNames returns the type names of a type-switch case clause.
+func typeNames(cc *ast.CaseClause) []string {
+	var out []string
+	for _, e := range cc.List {
+		switch x := e.(type) {
+		case *ast.SelectorExpr:
+			out = append(out, x.Sel.Name)
+		case *ast.Ident:
+			out = append(out, x.Name)
+		}
+	}
+	if cc.List == nil {
+		out = append(out, "default")
+	}
+	return out
+}
+
+type armFacts struct {
+	types     []string
+	sleeps    bool
+	guardVar  string
+	guardN    string
+	continues bool
+	incs      []string
+	assigns   []string // identifiers assigned `true` or appended to
+}
+
+func analyseArm(body []ast.Stmt) armFacts {
+	var f armFacts
+	var walk func(n ast.Node, guardVar, guardN string)
+	walk = func(n ast.Node, guardVar, guardN string) {
+		switch x := n.(type) {
+		case *ast.IfStmt:
+			gv, gn := guardVar, guardN
+			if be, ok := x.Cond.(*ast.BinaryExpr); ok && be.Op == token.GTR {
+				if id, ok := be.X.(*ast.Ident); ok {
+					if s, ok := intExpr(be.Y, map[string]string{}); ok {
+						gv, gn = id.Name, s
+					}
+				}
+			}
+			for _, st := range x.Body.List {
+				walk(st, gv, gn)
+			}
+			if x.Else != nil {
+				walk(x.Else, guardVar, guardN)
+			}
+		case *ast.BlockStmt:
+			for _, st := range x.List {
+				walk(st, guardVar, guardN)
+			}
+		case *ast.AssignStmt:
+			for _, r := range x.Rhs {
+				if c, ok := r.(*ast.CallExpr); ok {
+					if id, ok := c.Fun.(*ast.Ident); ok {
+						if id.Name == "sleepAndIncreaseBackoff" {
+							f.sleeps = true
+							f.guardVar, f.guardN = guardVar, guardN
+						}
+						if id.Name == "append" && len(x.Lhs) == 1 {
+							if l, ok := x.Lhs[0].(*ast.Ident); ok {
+								f.assigns = append(f.assigns, "append:"+l.Name)
+							}
+						}
+					}
+				}
+				if id, ok := r.(*ast.Ident); ok && id.Name == "true" && len(x.Lhs) == 1 {
+					if l, ok := x.Lhs[0].(*ast.Ident); ok {
+						f.assigns = append(f.assigns, "true:"+l.Name)
+					}
+				}
+			}
+		case *ast.BranchStmt:
+			if x.Tok == token.CONTINUE {
+				f.continues = true
+			}
+		case *ast.IncDecStmt:
+			if id, ok := x.X.(*ast.Ident); ok && x.Tok == token.INC {
+				f.incs = append(f.incs, id.Name)
+			}
+		}
+	}
+	for _, st := range body {
+		walk(st, "", "")
+	}
+	return f
+}
+
+func leanList(xs []string) string {
+	q := make([]string, len(xs))
+	for i, x := range xs {
+		q[i] = leanStr(x)
+	}
+	return "[" + strings.Join(q, ", ") + "]"
+}
+
+// typeSwitchArms finds the first `switch X.(type)` in fd and analyses its arms.
+func typeSwitchArms(fd *ast.FuncDecl) []armFacts {
+	var arms []armFacts
+	found := false
+	ast.Inspect(fd.Body, func(n ast.Node) bool {
+		if found {
+			return false
+		}
+		ts, ok := n.(*ast.TypeSwitchStmt)
+		if !ok {
+			return true
+		}
+		found = true
+		for _, c := range ts.Body.List {
+			cc := c.(*ast.CaseClause)
+			a := analyseArm(cc.Body)
+			a.types = typeNames(cc)
+			arms = append(arms, a)
+		}
+		return false
+	})
+	return arms
+}
+
+func emitArms(g *gen, name string, arms []armFacts) {
+	var items []string
+	for _, a := range arms {
+		sort.Strings(a.types)
+		sort.Strings(a.assigns)
+		gn := a.guardN
+		if gn == "" {
+			gn = "0"
+		}
+		items = append(items, fmt.Sprintf("{ types := %s, sleeps := %v, guardVar := %s, guardN := %s, continues := %v, incs := %s, marks := %s }",
+			leanList(a.types), a.sleeps, leanStr(a.guardVar), gn, a.continues, leanList(a.incs), leanList(a.assigns)))
+	}
+	g.def(name, "List Arm", "[\n  "+strings.Join(items, ",\n  ")+"]")
+}
+
+// loopFacts: initial value of `backoff` and the sleepAndIncreaseBackoff call sites of a function.
+func loopFacts(g *gen, fd *ast.FuncDecl, prefix string) {
+	init := "none"
+	var ctxs []string
+	assignedBack := 0
+	if fd != nil {
+		ast.Inspect(fd.Body, func(n ast.Node) bool {
+			switch x := n.(type) {
+			case *ast.AssignStmt:
+				if x.Tok == token.DEFINE && len(x.Lhs) == 1 && len(x.Rhs) == 1 {
+					if id, ok := x.Lhs[0].(*ast.Ident); ok && id.Name == "backoff" {
+						if s, ok := intExpr(x.Rhs[0], map[string]string{"backoffStart": "Backoff.backoffStart"}); ok {
+							init = "some (" + s + ")"
+						}
+					}
+				}
+				for _, r := range x.Rhs {
+					if c, ok := r.(*ast.CallExpr); ok {
+						if id, ok := c.Fun.(*ast.Ident); ok && id.Name == "sleepAndIncreaseBackoff" && len(c.Args) == 2 {
+							ctxs = append(ctxs, exprStr(c.Args[0]))
+							if l, ok := x.Lhs[0].(*ast.Ident); ok && l.Name == "backoff" {
+								if a, ok := c.Args[1].(*ast.Ident); ok && a.Name == "backoff" {
+									assignedBack++
+								}
+							}
+						}
+					}
+				}
+			case *ast.ValueSpec:
+				for _, nm := range x.Names {
+					if nm.Name == "backoff" && len(x.Values) == 0 {
+						init = "some 0"
+					}
+				}
+			}
+			return true
+		})
+	} else {
+		g.fail(prefix + " missing")
+	}
+	g.def(prefix+"_initBackoff", "Option Int", init)
+	g.def(prefix+"_sleepCtx", "List String", leanList(ctxs))
+	g.def(prefix+"_sleepThreadsBackoff", "Nat", strconv.Itoa(assignedBack))
+}
+
+func genRetryLoop(repo, out string) {
+	g := newGen("RetryLoop", "Backoff")
+	fmt.Fprintf(&g.buf, "structure Arm where\n  types : List String\n  sleeps : Bool\n  guardVar : String\n  guardN : Int\n  continues : Bool\n  incs : List String\n  marks : List String\n  deriving Repr, DecidableEq\n\n")
+	f := parse(filepath.Join(repo, "rpc.go"))
+	if fd := findMethod(f, "client", "SendRPC"); fd != nil {
+		emitArms(g, "sendRPCArms", typeSwitchArms(fd))
+	} else {
+		g.fail("SendRPC")
+		g.def("sendRPCArms", "List Arm", "[]")
+	}
+	if fd := findMethod(f, "client", "waitForCompletion"); fd != nil {
+		// the type switch is inside the handleResult closure or the loop; first one found
+		emitArms(g, "waitForCompletionArms", typeSwitchArms(fd))
+	} else {
+		g.fail("waitForCompletion")
+		g.def("waitForCompletionArms", "List Arm", "[]")
+	}
+	if fd := findMethod(f, "client", "handleResultError"); fd != nil {
+		arms := typeSwitchArms(fd)
+		var items []string
+		for _, a := range arms {
+			sort.Strings(a.types)
+			items = append(items, leanList(a.types))
+		}
+		g.def("handleResultErrorArms", "List (List String)", "["+strings.Join(items, ", ")+"]")
+	} else {
+		g.fail("handleResultError")
+		g.def("handleResultErrorArms", "List (List String)", "[]")
+	}
+	if fd := findFunc(f, "isRegionEstablished"); fd != nil {
+		arms := typeSwitchArms(fd)
+		var items []string
+		for _, a := range arms {
+			sort.Strings(a.types)
+			items = append(items, leanList(a.types))
+		}
+		g.def("isRegionEstablishedArms", "List (List String)", "["+strings.Join(items, ", ")+"]")
+	} else {
+		g.fail("isRegionEstablished")
+		g.def("isRegionEstablishedArms", "List (List String)", "[]")
+	}
+	loopFacts(g, findMethod(f, "client", "SendRPC"), "sendRPC")
+	loopFacts(g, findMethod(f, "client", "SendBatch"), "sendBatch")
+	loopFacts(g, findMethod(f, "client", "lookupRegion"), "lookupRegion")
+	loopFacts(g, findMethod(f, "client", "lookupAllRegions"), "lookupAllRegions")
+	loopFacts(g, findMethod(f, "client", "establishRegion"), "establishRegion")
+	// SendBatch: `needBackoff = immediateRetries > N`
+	guard := "none"
+	if fd := findMethod(f, "client", "SendBatch"); fd != nil {
+		ast.Inspect(fd.Body, func(n ast.Node) bool {
+			if as, ok := n.(*ast.AssignStmt); ok && len(as.Lhs) == 1 && len(as.Rhs) == 1 {
+				if l, ok := as.Lhs[0].(*ast.Ident); ok && l.Name == "needBackoff" {
+					if be, ok := as.Rhs[0].(*ast.BinaryExpr); ok && be.Op == token.GTR {
+						if s, ok := intExpr(be.Y, map[string]string{}); ok {
+							if id, ok := be.X.(*ast.Ident); ok {
+								guard = "some (" + leanStr(id.Name) + ", " + s + ")"
+							}
+						}
+					}
+				}
+			}
+			return true
+		})
+	}
+	g.def("sendBatch_immediateGuard", "Option (String × Int)", guard)
+	g.finish(out)
+}
+
 func main() {
 	if len(os.Args) != 3 {
 		fmt.Fprintln(os.Stderr, "usage: extract <repo> <Gen dir>")
@@ -672,4 +937,5 @@ func main() {
 	genExceptions(repo, out)
 	genWire(repo, out)
 	genCell(repo, out)
+	genRetryLoop(repo, out)
 }
